@@ -538,7 +538,7 @@ def part_maps_writer(ctx, h, objdir, d):
     build.cc([src] + build.libmcount_objs(objdir, ""), exe, objdir,
              extra=build.LINK_LIBS + ["-Wl,--wrap=fopen"])
     out = []
-    for i in range(ctx.n(30, 300)):
+    for i in range(ctx.n(20, 300)):
         segs = []
         a = rng.choice([0x400000, 0x555555554000])
         mods = ["/usr/bin/prog", "/lib/libc.so.6", "/lib/libfoo.so", "/opt/a/libfoo.so", "/lib/ld.so"]
@@ -1018,12 +1018,12 @@ def setup(ctx):
 def run(ctx):
     meta(ctx)
     objdir, h = setup(ctx)
-    part_kernels(ctx, h)
-    part_lookup(ctx, h)
-    part_symfiles(ctx, h)
-    part_maps(ctx, h, objdir)
-    part_datadirs(ctx, h)
-    part_e2e(ctx, objdir)
+    for name, f in (("K kernels", lambda: part_kernels(ctx, h)), ("L lookups", lambda: part_lookup(ctx, h)),
+                    ("S symbol files", lambda: part_symfiles(ctx, h)), ("M map files", lambda: part_maps(ctx, h, objdir)),
+                    ("D data directories", lambda: part_datadirs(ctx, h)), ("E end to end", lambda: part_e2e(ctx, objdir))):
+        n0 = ctx.evaluations
+        f()
+        ctx.log("part %s: %d cases" % (name, ctx.evaluations - n0))
 
 
 def replay(ctx, obj):
